@@ -172,6 +172,7 @@ func (p *Program) Compile() (*Compiled, error) {
 		return nil, err
 	}
 	c := &compiler{p: p, a: kasm.New(), pending: map[int]int{}, nextV: vFirstValue}
+	c.a.GFX9 = p.GFX9
 	c.waitStyleOf = map[int]int{}
 	a := c.a
 	g := p.Geo
